@@ -138,6 +138,8 @@ def _pairs(n, seed, k=6, width=2):
 
 def evaluate(md, name, w, idx, fseed):
     """per-frame results of function `name` on a fresh trajectory of frames idx -> list (one entry per frame)"""
+    if idx is None:
+        idx = list(range(len(w['xyz'])))
     t = fresh(md, w, idx)
     n = t.n_atoms
     ref = fresh(md, w, [0])                      # reference conformation: always the workload's frame 0
@@ -395,7 +397,10 @@ def execute(check, case, workdir):
             res.trace.append((f, ctx, op['team'], op['prob'] > 0))
         except Exception as e:
             res.log.append('%d %s %s raised %s: %s' % (stepno, op['op'], f, type(e).__name__, str(e)[:60]))
-            res.probe('function_raised:%s:%s' % (f, type(e).__name__))
+            # every function of the table runs cleanly on these fragments on the unchanged tree, so an exception
+            # under some schedule or frame context is itself a schedule/context dependence
+            viol(f, op['op'] if op['op'] == 'threads' else 'context:' + op.get('ctx', '?'), 'raises:%s' % type(e).__name__,
+                 {'message': str(e)[:300]}, stepno)
     return res
 
 
